@@ -94,6 +94,7 @@ class Facts:
         self.path = path
         self.features = self.raw['features']
         self.adts = {a['path']: a for a in self.raw['adts']}
+        self._flatten_field_groups()
         self.impls = self.raw['impls']
         self.impl_by_id = {i['id']: i for i in self.impls}
         self.traits = {t['path']: t for t in self.raw['traits']}
@@ -154,6 +155,77 @@ class Facts:
         if len(r) != 1:
             raise AnchorMissing('expected exactly one fn for %r, found %d' % (kw, len(r)))
         return r[0]
+
+    def _flatten_field_groups(self):
+        """Grouping fields is not vocabulary either.  A private struct that exists only as ONE field of another private
+        struct (`struct MutexState { is_fair, is_locked, queue: WaitQueue }`, `struct WaitQueue { waiters }`) is a
+        field group: its fields are the outer struct's fields.  The ADT table is flattened here (originals kept in
+        adts_orig); the engine drops the hop through the group field from every access path and splices group
+        aggregates (Engine.eval_place / eval_rvalue), so `self.queue.waiters` is the `self.waiters` the rules name."""
+        import copy
+        from autotrait import subst
+        self.adts_orig = copy.deepcopy(self.adts)
+        self.group_fields = {}
+        special = ('intrusive_double_linked_list::', 'intrusive_pairing_heap::')
+        users = {}
+        for a in self.adts_orig.values():
+            for v in a['variants']:
+                for f in v['fields']:
+                    t = f['ty']
+                    if t.get('k') == 'adt' and t.get('local'):
+                        users.setdefault(t['path'], []).append((a['path'], f['name']))
+        # a struct that appears as the type of a local variable / parameter on its own is a value in its own right
+        # only if it is never a field; groups are recognised by being a field of exactly one private struct
+        for sub, us in users.items():
+            b = self.adts_orig.get(sub)
+            if not b or b['kind'] != 'struct' or b.get('reachable') or sub.startswith(special) or len(us) != 1:
+                continue
+            outer, fname = us[0]
+            o = self.adts_orig[outer]
+            if o['kind'] != 'struct' or o.get('reachable') or outer.startswith(special):
+                continue
+            # only inside the state of a primitive: the outer struct (or the outer of the outer) is a lock payload -
+            # approximated by "has a bool / queue / counter next to it and is itself never generic over the group"
+            if not any(True for _ in b['variants'][0]['fields']):
+                continue
+            outer_names = set(f['name'] for f in o['variants'][0]['fields'])
+            if any(f['name'] in outer_names for f in b['variants'][0]['fields']):
+                continue     # a name clash after flattening: leave it alone (the anchors then fail closed)
+            self.group_fields[(outer, fname)] = sub
+        for _round in range(3):
+            changed = False
+            for (outer, fname), sub in list(self.group_fields.items()):
+                o = self.adts[outer]
+                new_fields = []
+                for f in o['variants'][0]['fields']:
+                    if f['name'] == fname and f['ty'].get('path') == sub:
+                        b = self.adts[sub]
+                        m = dict(zip(b.get('params') or [], f['ty'].get('args') or []))
+                        for g in b['variants'][0]['fields']:
+                            g2 = dict(g)
+                            g2['ty'] = subst(g['ty'], m)
+                            new_fields.append(g2)
+                        changed = True
+                    else:
+                        new_fields.append(f)
+                o['variants'][0]['fields'] = new_fields
+            if not changed:
+                break
+
+    def field_ty(self, adt_ty, field, variant=None):
+        """type of `field` in the ORIGINAL definition of the ADT type `adt_ty` (its generics substituted), or None"""
+        from autotrait import subst
+        a = getattr(self, 'adts_orig', self.adts).get((adt_ty or {}).get('path'))
+        if not a:
+            return None
+        m = dict(zip(a.get('params') or [], adt_ty.get('args') or []))
+        for v in a['variants']:
+            if variant is not None and v['name'] != variant:
+                continue
+            for f in v['fields']:
+                if f['name'] == field:
+                    return subst(f['ty'], m)
+        return None
 
     def _takes_lock(self, f):
         try:
